@@ -98,6 +98,8 @@ type SimSess struct {
 	All []wamp.Message // everything received, in order
 	LastChallenge *wamp.Challenge
 	HelloAuthID   string
+	unsubByReq    map[wamp.ID]wamp.ID // request id -> subscription id of UNSUBSCRIBE messages queued
+	unregByReq    map[wamp.ID]wamp.ID
 
 	outq     chan sentRec
 	Queued   int // messages handed to the sender goroutine
@@ -547,6 +549,18 @@ func (e *Engine) queue(s *SimSess, m wamp.Message, opIdx int) {
 	}
 	// account first: the sender goroutine may deliver the message at once
 	s.mu.Lock()
+	switch x := m.(type) {
+	case *wamp.Unsubscribe:
+		if s.unsubByReq == nil {
+			s.unsubByReq = map[wamp.ID]wamp.ID{}
+		}
+		s.unsubByReq[x.Request] = x.Subscription
+	case *wamp.Unregister:
+		if s.unregByReq == nil {
+			s.unregByReq = map[wamp.ID]wamp.ID{}
+		}
+		s.unregByReq[x.Request] = x.Registration
+	}
 	s.Queued++
 	s.queuedAt = append(s.queuedAt, e.Now())
 	s.mu.Unlock()
